@@ -9,6 +9,7 @@ import (
 	"path/filepath"
 	"sort"
 	"strings"
+	"syscall"
 
 	"github.com/tetratelabs/wazero"
 	"github.com/tetratelabs/wazero/api"
@@ -280,6 +281,16 @@ func (x *inst) readStat() *statRes {
 	return &statRes{Ino: x.u64(statP + 8), Type: x.u64(statP + 16), Nlink: x.u64(statP + 24), Size: x.u64(statP + 32)}
 }
 
+// step runs one call on the implementation, then on the model (which is told whether the call failed,
+// see Model.hintFailed).
+func step(m *Model, x *inst, o *Op) (Exp, Res) {
+	res := x.do(o)
+	m.hintFailed = res.Errno != 0 || res.Trap != ""
+	exp := m.apply(o)
+	m.hintFailed = false
+	return exp, res
+}
+
 // ---------------------------------------------------------------- comparison
 
 // inoBook records the host inode number first observed for each model inode: the same model
@@ -288,6 +299,29 @@ func (x *inst) readStat() *statRes {
 type inoBook struct {
 	m   *Model
 	ino map[*inode]uint64
+}
+
+// newBook seeds the book with the inode numbers of the initial tree, which the harness created itself.
+func newBook(m *Model, dir string) *inoBook {
+	b := &inoBook{m: m, ino: map[*inode]uint64{}}
+	seed := func(n *inode, p string) {
+		if st, err := os.Lstat(p); err == nil {
+			if s, ok := st.Sys().(*syscall.Stat_t); ok {
+				b.ino[n] = s.Ino
+			}
+		}
+	}
+	seed(m.root, dir)
+	if a := m.root.kids["a"]; a != nil {
+		seed(a, filepath.Join(dir, "a"))
+	}
+	if d := m.root.kids["d"]; d != nil {
+		seed(d, filepath.Join(dir, "d"))
+		if x := d.kids["x"]; x != nil {
+			seed(x, filepath.Join(dir, "d", "x"))
+		}
+	}
+	return b
 }
 
 func (b *inoBook) observe(n *inode, host uint64) string {
